@@ -35,6 +35,7 @@ const char *K_NAME     = "C26/header-name-not-validated";                 // evh
 const char *K_BODILESS = "C26/bodiless-response-carries-body";            // HEAD / 1xx / 204 / 304: output buffer written behind the header section
 const char *K_STREAM10 = "C26/streamed-reply-http10-keepalive-content-length-0";   // send_reply_start to an HTTP/1.0 keep-alive request announces Content-Length: 0
 const char *K_REQBODY  = "C26/request-body-without-content-length";       // HEAD / TRACE / body-less extension method: output buffer written without framing
+const char *K_ERRCB    = "C26/errorcb-empty-output-no-default-page";      // errorcb returns 0 without output: documented fallback to the default page missing
 // ---- generic oracle clauses (no known root cause attached)
 const char *G_PARSE    = "C26/message-does-not-parse";
 const char *G_TRAIL    = "C26/bytes-after-message";
@@ -48,6 +49,8 @@ const char *G_REJECTED = "C26/rejected-argument-left-trace";
 const char *G_VALIDREJ = "C26/valid-argument-rejected";
 const char *G_CLOSE    = "C26/close-delimited-reply-on-open-connection";
 const char *G_TE10     = "C26/chunked-reply-to-http10-request";
+const char *G_VALUE_LB = "C26/header-value-line-break-accepted";          // a CR / LF not followed by SP / HTAB got through evhttp_add_header
+const char *G_NAME_LB  = "C26/header-name-line-break-accepted";           // CR / LF or an empty name got through evhttp_add_header
 
 // ---- argument predicates (structure only; see the reference header for what is tolerated)
 bool ws_like(unsigned char c) { return c == ' ' || c == '\t' || c == 0x0b || c == 0x0c || c == '\r' || c == '\n'; }
@@ -61,6 +64,16 @@ bool value_ok(const std::string &v) {
   for (size_t i = 0; i < v.size(); i++) {
     if (v[i] == '\r') { if (i + 2 >= v.size() || v[i + 1] != '\n' || !h9112::is_ows((unsigned char)v[i + 2])) return false; i++; }
     else if (v[i] == '\n') return false;
+  }
+  return true;
+}
+// the sub-domain of C26/header-value-line-break-run-accepted: every run of CR / LF is followed by SP / HTAB, but not every run
+// is exactly CRLF (what is left of !value_ok() is refused by the unchanged library and stays in the generated domain)
+bool value_run_subdomain(const std::string &v) {
+  if (value_ok(v)) return false;
+  for (size_t i = 0; i < v.size(); i++) if (v[i] == '\r' || v[i] == '\n') {
+    while (i < v.size() && (v[i] == '\r' || v[i] == '\n')) i++;
+    if (i >= v.size() || !h9112::is_ows((unsigned char)v[i])) return false;
   }
   return true;
 }
@@ -141,7 +154,7 @@ void gen_headers(Src &s, std::vector<Hdr> &out, Taints &t, int max) {
     Arg vl = adversarial(s, BENIGN_VALUES[s.below(7)], 4);
     h.name = nm.v; h.value = vl.v; h.benign = !nm.adv && !vl.adv;
     if (nm.adv && !has_crlf(h.name) && !name_ok(h.name) && avoid(K_NAME)) h.name = fix_name(h.name);
-    if (vl.adv && !value_ok(h.value) && avoid(K_VALUE)) h.value = fix_value(h.value);
+    if (vl.adv && value_run_subdomain(h.value) && avoid(K_VALUE)) h.value = fix_value(h.value);
     // names that would collide with framing fields after repair are not wanted here: framing names are only supplied in valid forms
     std::string ln = h9112::lower(h.name);
     if (ln == "content-length" || ln == "transfer-encoding" || ln == "connection" || ln == "date" || ln == "content-type" || ln == "expect") h.name = "X-" + h.name;
@@ -157,13 +170,16 @@ void add_headers(struct evkeyvalq *q, std::vector<Hdr> &hdrs, Taints &t) {
     CHECK(h.rc == 0 || h.rc == -1, "C26/add-header-return-value", "evhttp_add_header returned %d", h.rc);
     if (h.benign && h.name.size() && h9112::is_token(h.name)) CHECK(h.rc == 0, G_VALIDREJ, "evhttp_add_header('%s','%s') refused a valid field", esc(h.name).c_str(), esc(h.value).c_str());
     if (h.rc == 0) {
-      if (!name_ok(h.name)) t.add(K_NAME);
-      if (!value_ok(h.value)) t.add(K_VALUE);
+      if (h.name.empty() || has_crlf(h.name)) t.add(G_NAME_LB); else if (!name_ok(h.name)) t.add(K_NAME);
+      if (value_run_subdomain(h.value)) t.add(K_VALUE); else if (!value_ok(h.value)) t.add(G_VALUE_LB);
       if (has_crlf(h.value) || has_crlf(h.name)) verif_class("crlf_argument_accepted");
       if (!h.benign) verif_class("adversarial_header_accepted");
     } else verif_class("header_rejected");
   }
 }
+
+// the argument, as passed to the API, carries a line break or another structure-changing byte
+bool structural(const Hdr &h) { return has_crlf(h.name) || has_crlf(h.value) || !name_ok(h.name); }
 
 struct AutoSpec {
   bool date = false, cl = false, te = false, conn = false;   // which automatic names may appear
@@ -249,6 +265,7 @@ bool code_bodiless(int code) { return (code >= 100 && code < 200) || code == 204
 int error_cb(struct evhttp_request *, struct evbuffer *buf, int, const char *, void *arg) {
   ServerCase *c = (ServerCase *)arg;
   if (c->errcb_mode == 2) { evbuffer_add(buf, "ignored", 7); return -1; }
+  if (c->errcb_mode == 3) return 0;   // "doesn't output anything to the buffer": the default page is documented to be sent
   evbuffer_add(buf, c->errcb_body.data(), c->errcb_body.size());
   return 0;
 }
@@ -326,8 +343,8 @@ void run_server(Src &s) {
   // server configuration
   c.ctype_mode = s.below(4);
   if (c.ctype_mode == 2) c.ctype = "application/x-test";
-  if (c.ctype_mode == 3) { Arg a = adversarial(s, "text/x", 6); c.ctype = a.v; if (!value_ok(c.ctype) && avoid(K_VALUE)) c.ctype = fix_value(c.ctype); }
-  if (c.style == ST_ERROR) { c.errcb_mode = s.below(3); if (c.errcb_mode == 1) { c.errcb_body = body_bytes(s); if (c.errcb_body.empty()) c.errcb_body = "custom error page"; } }
+  if (c.ctype_mode == 3) { Arg a = adversarial(s, "text/x", 6); c.ctype = a.v; if (value_run_subdomain(c.ctype) && avoid(K_VALUE)) c.ctype = fix_value(c.ctype); }
+  if (c.style == ST_ERROR) { c.errcb_mode = s.below(4); if (c.errcb_mode == 3 && avoid(K_ERRCB)) c.errcb_mode = 2; if (c.errcb_mode == 1) { c.errcb_body = body_bytes(s); if (c.errcb_body.empty()) c.errcb_body = "custom error page"; } }
   // valid caller-supplied framing / automatic names
   int own = s.below(8);
   bool bodiless = c.method == "HEAD" || code_bodiless(c.code);
@@ -349,7 +366,7 @@ void run_server(Src &s) {
   if (bodiless && (c.style == ST_REPLY_BUF || c.style == ST_REPLY_OUTBUF) && !c.body.empty()) c.t.add(K_BODILESS);
   if (bodiless && c.style == ST_ERROR) c.t.add(K_BODILESS);
   if (streaming && c.ver == 3 && !bodiless && !own_cl && !c.body.empty()) c.t.add(K_STREAM10);
-  if (c.ctype_mode == 3 && !value_ok(c.ctype)) c.t.add(K_VALUE);
+  if (c.ctype_mode == 3 && value_run_subdomain(c.ctype)) c.t.add(K_VALUE);   // (any other invalid one is dropped by the library; if not, a generic clause reports it)
 
   hw::World w; c.w = &w; w.backend = 0;
   w.open();
@@ -385,8 +402,7 @@ void run_server(Src &s) {
   AutoSpec au; au.date = au.cl = au.te = au.conn = true;
   if (c.style == ST_ERROR) { au.ct = true; au.ct_value = "text/html"; au.supplied_optional = true; }
   else if (c.ctype_mode == 0) { au.ct = true; au.ct_value = "text/html; charset=ISO-8859-1"; }
-  else if (c.ctype_mode >= 2 && value_ok(c.ctype)) { au.ct = true; au.ct_value = h9112e::unfold(c.ctype); }
-  else if (c.ctype_mode == 3) { au.ct = true; au.ct_value = h9112e::unfold(c.ctype); }   // accepted although it should not be: the wire decides (tainted)
+  else if (c.ctype_mode >= 2) { au.ct = true; au.ct_value = h9112e::unfold(c.ctype); }   // (an invalid one may be dropped or, if it gets through, the wire decides: tainted)
   au.supplied_connection_optional = c.req_close;
   check_fields(m, c.hdrs, au, c.t, wire);
   // body
@@ -395,7 +411,7 @@ void run_server(Src &s) {
   else if (c.style == ST_ERROR) want_body = c.errcb_mode == 1 ? c.errcb_body : m.body;   // the default page is library text: only its framing is checked
   else want_body = c.body;
   if (m.body != want_body) VERIF_FAIL(c.t.blame(G_BODY), "body on the wire (%zu bytes '%s') differs from the supplied one (%zu bytes '%s'); wire='%s'", m.body.size(), esc(m.body, 80).c_str(), want_body.size(), esc(want_body, 80).c_str(), esc(wire, 600).c_str());
-  if (c.style == ST_ERROR && !bodiless && c.errcb_mode != 1) CHECK(!m.body.empty(), c.t.blame(G_BODY), "evhttp_send_error sent no error page; wire='%s'", esc(wire, 400).c_str());
+  if (c.style == ST_ERROR && !bodiless && c.errcb_mode != 1) CHECK(!m.body.empty(), c.errcb_mode == 3 ? K_ERRCB : c.t.blame(G_BODY), "evhttp_send_error sent no error page (errorcb mode %d); wire='%s'", c.errcb_mode, esc(wire, 400).c_str());
   if (m.framing == h9112e::FR_CHUNKED) {
     std::vector<std::string> want; for (auto &x : c.chunks) if (!x.empty()) want.push_back(x);
     bool same = want.size() == m.chunks.size(); for (size_t i = 0; same && i < want.size(); i++) same = want[i] == m.chunks[i];
@@ -409,9 +425,11 @@ void run_server(Src &s) {
   if (bodiless) verif_class("bodiless");
   if (m.grammar_only) verif_class("grammar_only_deviation");
   bool adv_seen = c.reason_adv || c.ctype_mode == 3; for (auto &h : c.hdrs) if (!h.benign) adv_seen = true;
+  bool lb_seen = (!c.reason_null && has_crlf(c.reason)) || (c.ctype_mode == 3 && has_crlf(c.ctype)); for (auto &h : c.hdrs) if (structural(h)) lb_seen = true;
   for (auto &f : m.fields) if (f.folded) verif_class("obs_fold_emitted");
   if (adv_seen) verif_class("adversarial_argument");
-  bool nontrivial = adv_seen || (m.framing == h9112e::FR_CHUNKED && !m.chunks.empty());
+  if (lb_seen) verif_class("structural_argument");
+  bool nontrivial = lb_seen || (m.framing == h9112e::FR_CHUNKED && !m.chunks.empty());
   w.close_client(); w.close_world();
   w.check_no_leak("C26/leak", "C26/fd-leak");
   g_sc = nullptr;
@@ -478,11 +496,13 @@ void run_client(Src &s) {
     check_fields(m, hdrs, au, t, wire);
     if (m.body != body) VERIF_FAIL(t.blame(G_BODY), "body on the wire (%zu bytes '%s') differs from the supplied one (%zu bytes '%s'); wire='%s'", m.body.size(), esc(m.body, 80).c_str(), body.size(), esc(body, 80).c_str(), esc(wire, 600).c_str());
     bool adv_seen = uri.adv; for (auto &h : hdrs) if (!h.benign) adv_seen = true;
+    bool lb_seen = !target_ok(uri.v); for (auto &h : hdrs) if (structural(h)) lb_seen = true;
     if (adv_seen) verif_class("adversarial_argument");
+    if (lb_seen) verif_class("structural_argument");
     if (m.grammar_only) verif_class("grammar_only_deviation");
     for (auto &f : m.fields) if (f.folded) verif_class("obs_fold_emitted");
     if (has_crlf(uri.v)) verif_class("crlf_argument_accepted");
-    nontrivial = adv_seen;
+    nontrivial = lb_seen;
   }
   verif_class("client"); verif_class(me.name);
   w.close_world();
